@@ -10,6 +10,7 @@ from pbt.guard import HangSuspected, StepBudgetExceeded, line_budget, wall_guard
 from pbt.harness import ALGOS, Session, algo_label, arity, check_point
 
 PROP = "C01"
+OWN_GUARD = True
 RULE = (
     "cases = algorithm (14 classes; POO/GPO over each of T_HOO/HCT/VHCT) x partition class x K in 2..5 x "
     "d in 1..3 x box (unit/int/negative/shifted/narrow/wide/arbitrary/extreme) x documented parameter ranges x "
@@ -37,12 +38,7 @@ def cases(draw, tier):
     n_range = (100, 300) if tier == "quick" else (100, 1500)
     name = draw(st.sampled_from(ALGOS + ("VROOM", "GPO", "POO")))
     case = draw(gen.run_case(names=[name], n_range=n_range, extreme=True, full=True,
-                             max_d=3 if tier == "quick" else 4))
-    if name == "VROOM":
-        d = len(case["domain"])
-        sd = int(math.floor(math.log2(case["algo"]["params"]["n"])))
-        if arity(case["partition"], d) ** sd > 4096:
-            case["partition"] = {"cls": "BinaryPartition"}
+                             max_d=3 if tier == "quick" else 4, vroom_nonbinary_ok=True))
     return case
 
 
